@@ -55,6 +55,7 @@ type Options struct {
 	UnionsOut string // content of the gounions output (to know which wrappers exist)
 	Timeout   time.Duration
 	NeedPQ    bool
+	TypeNames []string // when set: exactly these root-package types are exercised (instead of the analysed file's declarations)
 	// ExtraTests: additional _test.go files of the root package
 	ExtraTests map[string]string
 	TestRun    string // -test.run pattern, default TestVerifHarness
@@ -89,8 +90,11 @@ func Harness(spec *synth.Spec, o Options) (string, error) {
 	unions := spec.Unions()
 	// only the declarations of the analysed file are exercised directly (generated code exists for
 	// what is reachable from them; other types of the package are reached through fields)
+	for _, tn := range o.TypeNames {
+		d.Types = append(d.Types, typeEntry{Name: tn, Expr: tn})
+	}
 	for _, f := range root.Files[:1] {
-		if f.Src != "" {
+		if f.Src != "" || o.TypeNames != nil {
 			continue
 		}
 		for _, dcl := range f.Decls {
